@@ -1,0 +1,10 @@
+//go:build verif
+
+package stdout
+
+import "github.com/atlassian/gostatsd"
+
+// VerifPayloadC17 returns the text SendMetricsAsync of this client hands to the logger.
+func (client *Client) VerifPayloadC17(metrics *gostatsd.MetricMap) []byte {
+	return preparePayload(metrics, &client.disabledSubtypes).Bytes()
+}
